@@ -422,5 +422,18 @@ pub fn run(cfg: &RunCfg) -> i32 {
     if let Some(v) = v {
         check.violate("random", &v.case, v.failure);
     }
+    if cfg.tier == crate::util::Tier::Thorough && !check.has_violation() {
+        crate::fuzzrun::run_campaign(
+            &mut check,
+            cfg,
+            &crate::fuzzrun::Campaign {
+                target: "session_ops",
+                server_feature: true,
+                runs: (300_000.0 * cfg.scale) as u64,
+                max_len: 2000,
+                rule: "coverage guided libFuzzer campaign, socket free: bytes split into lines are fed to the protocol handler of a fresh in-process server per iteration, a witness uses the server's API before and after, the server must stop cleanly; any panic aborts and is reported with the input; evaluations = executed inputs, distinct non-trivial = inputs that reached new coverage",
+            },
+        );
+    }
     check.finish()
 }
